@@ -280,8 +280,8 @@ def root_records(quick):
   for pct in (20, 30, 33, 40):
     for inst in range(1 if quick else 3):
       jobs.append(('bi_modn', pct, inst))
-  with mp.get_context('fork').Pool(processes=12) as pool:
-    return list(pool.imap_unordered(root_worker, jobs, chunksize=1))
+  from pv import proc
+  return list(proc.imap_unordered(root_worker, jobs, procs=12))
 
 
 def run(ctx):
